@@ -9,7 +9,7 @@ def append_only(ch, ctx, did, **kw):
 
 def obligations(tier):
     obs = []
-    plain = [("D02", 5), ("D05b", 5), ("D06p", 6), ("D09", 8), ("D09b", 8), ("D10", 5), ("D11", 5), ("D12p", 6), ("D13i", 4), ("D15", 4), ("D22", 6), ("D23", 6)]
+    plain = [("D02", 5), ("D05b", 5), ("D06p", 6), ("D09", 8), ("D09b", 8), ("D10", 5), ("D11", 5), ("D12p", 6), ("D13i", 4), ("D15", 4), ("D22", 6), ("D22b", 6), ("D23", 6)]
     for did, steps in plain:
         o = ob("C18", "e2c." + did, "vt.harness.C18:append_only", {"did": did, "steps": steps, "tokens": True, "bits": True}, timeout=900)
         o["antecedents"] = ["c18_compared", "c18_decided"]
